@@ -122,12 +122,12 @@ Theorem matrix_adjoint_other_range_refuted : identity_fails (LMatrix [1] [2] [[1
 Proof. exact matrix_weighted_refuted. Qed.
 Theorem sampling_adjoint_const_weight_refuted : identity_fails (LSampling [2] [0%nat] false 1).
 Proof. exact sampling_weighted_refuted. Qed.
-Theorem sampling_adjoint_nodes_on_bdry_refuted : identity_fails (LSampling [1/2; 1; 1/2] [0%nat] false 1).
+Theorem sampling_adjoint_nodes_on_bdry_refuted : identity_fails (LSampling [1/4; 1/2; 1/4] [0%nat] false (1/2)).
 Proof. exact sampling_bdry_refuted. Qed.
 Theorem flattening_adjoint_refuted : identity_fails (LFlatten [2] [0%nat] 1).
 Proof. exact flatten_weighted_refuted. Qed.
 Theorem component_projection_adjoint_refuted : identity_fails (LProj [[1]; [1]] [2; 3] 0).
 Proof. exact proj_weighted_refuted. Qed.
 Theorem partial_derivative_nodes_on_bdry_refuted :
-  identity_fails (LPDeriv [1/2; 1; 1/2] [1/2; 1; 1/2] [3%nat] 0 Forward PConstant 1).
+  identity_fails (LPDeriv [1/4; 1/2; 1/4] [1/4; 1/2; 1/4] [3%nat] 0 Forward PConstant (1/2)).
 Proof. exact pderiv_bdry_refuted. Qed.
